@@ -309,8 +309,11 @@ func runC17(e *Env) Outcome {
 		last = runnable[choice].ID
 		return choice
 	}
-	s := sched.New(pick, 10*time.Second)
-	defer s.Close()
+	limit := 30 * time.Second
+	if e.Thorough() {
+		limit = 60 * time.Second
+	}
+	s := sched.New(pick, limit)
 	for i := range plans {
 		i := i
 		results[i] = make([]c17Result, len(plans[i]))
@@ -324,6 +327,11 @@ func runC17(e *Env) Outcome {
 	simio.Yield, iterator.SimYield, builder.SimYield = sched.Yield, sched.Yield, sched.Yield
 	NewRaceReports() // discard anything reported before this run
 	verdict := s.Run()
+	if verdict == "" {
+		// (with stuck threads the pipes stay open: the worker exits anyway, and
+		// a thread that moves after all must not die on a closed descriptor)
+		s.Close()
+	}
 	simio.Yield, iterator.SimYield, builder.SimYield = nil, nil, nil
 
 	// schedule statistics
